@@ -438,6 +438,11 @@ def build(scico, case, t=None, shape=None, info=None):
     elif k == "sum":
         a, b = sub(t["f"]), sub(t["g"])
         res = TypeError if (a is TypeError or b is TypeError) else a + b
+    elif k == "sep" and t.get("same"):
+        # the list repeats the IDENTICAL functional object ([f] * k): still block by block
+        o = sub(t["fs"][0], shape[0])
+        parts = [o] * len(shape)
+        res = TypeError if o is TypeError else F.SeparableFunctional(parts)
     elif k == "sep":
         parts = [sub(tt, sh) for tt, sh in zip(t["fs"], shape)]
         res = TypeError if any(p is TypeError for p in parts) else F.SeparableFunctional(parts)
@@ -731,3 +736,19 @@ def unit_factor_failures(scico, rng, reps=1):
                 if fail is not None:
                     fail.update(desc)
                 yield desc, fail
+
+
+def gen_same_object_case(rng):
+    """SeparableFunctional([f] * k) with the IDENTICAL object repeated, f coupling the entries of its argument (L2Norm,
+    non-separable Huber, L2 ball, L2,1 with l2_axis=None, possibly scaled): must still act block by block"""
+    cplx = bool(rng.random() < 0.3)
+    k = int(rng.integers(2, 4))
+    shape = [(int(rng.integers(1, 5)),) if rng.random() < 0.7 else (int(rng.integers(1, 4)), int(rng.integers(1, 4))) for _ in range(k)]
+    tg = TreeGen(rng, cplx, allow_lossdefect=False)
+    f = tg.leaf(["l2", "l2", "hubern", "hubern", "l2ball", "l21none"])
+    if rng.random() < 0.5:
+        f = {"k": "scaled" if rng.random() < 0.5 else "mul", "c": f2b(pos_dyadic(rng)), "side": 0, "f": f}
+    t = {"k": "sep", "fs": [f] * k, "same": True}
+    if rng.random() < 0.3:
+        t = {"k": "scaled", "c": f2b(pos_dyadic(rng)), "f": t}
+    return {"cplx": cplx, "leaves": tg.leaves, "ops": [], "t": t, "shape": [list(s_) for s_ in shape]}
